@@ -184,9 +184,10 @@ func Instrument(wat []byte, marks map[string]int) ([]byte, error) {
 		cuts = append(cuts, at)
 		fmt.Fprintf(&tail, "\n(func $%s (param $k i32)\n  i32.const %d\n  local.get $k\n  global.get $__heap_ptr\n  call $verif.on_mark\n  local.get $k\n  call $%s__orig\n)\n", name, marks[name], name)
 	}
-	if !strings.Contains(src, "(global $__heap_ptr") {
-		return nil, fmt.Errorf("instrument: global $__heap_ptr not found")
+	if !strings.Contains(src, "(global $__heap_ptr") || !strings.Contains(src, "(global $__heap_base") {
+		return nil, fmt.Errorf("instrument: global $__heap_ptr / $__heap_base not found")
 	}
+	tail.WriteString("\n(func $verif.heap_base (export \"verif_heap_base\") (result i32)\n  global.get $__heap_base\n)\n")
 	h := moduleHead.FindStringIndex(src[:min(len(src), 4096)])
 	if h == nil {
 		return nil, fmt.Errorf("instrument: module header not found")
@@ -273,6 +274,11 @@ type Monitor struct {
 	RecordKinds map[int]bool
 	// OpKind: the mark kind that sets Violation.Mark.
 	OpKind int
+
+	// HeapBase: addresses below it are static data (never allocated, never freed); retain and
+	// release of a counted static block are not heap events.
+	HeapBase uint32
+	NStatic  int64
 
 	live      map[uint32]*block
 	freed     map[uint32]bool
@@ -414,6 +420,10 @@ func (mo *Monitor) onRetain(mem api.Memory, ctx context.Context, ptr uint32) {
 	if ptr == 0 {
 		return
 	}
+	if ptr < mo.HeapBase {
+		mo.NStatic++
+		return
+	}
 	mo.NRetain++
 	b := mo.live[ptr]
 	if b == nil {
@@ -439,6 +449,10 @@ func (mo *Monitor) onRetain(mem api.Memory, ctx context.Context, ptr uint32) {
 
 func (mo *Monitor) onRelease(mem api.Memory, ctx context.Context, ptr uint32) {
 	if ptr == 0 {
+		return
+	}
+	if ptr < mo.HeapBase {
+		mo.NStatic++
 		return
 	}
 	mo.NRelease++
@@ -670,6 +684,13 @@ func (in *Instance) instantiate() error {
 		return err
 	}
 	in.mod = mod
+	if f := mod.ExportedFunction("verif_heap_base"); f != nil {
+		if r, err := f.Call(p.ctx); err == nil && len(r) == 1 {
+			in.mon.mu.Lock()
+			in.mon.HeapBase = uint32(r[0])
+			in.mon.mu.Unlock()
+		}
+	}
 	return nil
 }
 
